@@ -47,6 +47,14 @@ class Sim07(scenario.Sim):
         self.jitter = [int(j) * TICK for j in c7.get("jitter", [])]
         self._jit_i = 0
         self.reactive = [dict(r) for r in c7.get("reactive", [])]
+        # re-listings / reconnects of the watch, timed relative to what the operator does:
+        #   {"on": "sleep", "nth": n, "offset": ticks, "how": h}  — `offset` after the n-th sleeping handler call began
+        #   {"on": "write", "nth": n, "offset": ticks, "how": h}  — `offset` after the n-th own write was applied
+        # how: "410" | "eof" | "conn" (queued behind the pending deliveries of the stream, as fakeapi.break_watches does),
+        #      "410-now" | "eof-now" (the stream is cut at once: undelivered events of the old stream are lost;
+        #      kopf re-watches from the last version it saw, resp. re-lists after a compaction).
+        self.breaks = [dict(b) for b in c7.get("breaks", [])]
+        self.sleep_calls = 0
         self.own_writes = 0
         self.foreign_counter = 1000
         self._own = False
@@ -70,6 +78,9 @@ class Sim07(scenario.Sim):
         orig_perform = self.obs._perform
 
         async def perform(action: Any, rec: dict, kwargs: dict) -> Any:
+            if isinstance(action, list) and action and action[0] == "sleep" and rec.get("kind") in ("create", "update", "delete", "resume"):
+                self.sleep_calls += 1
+                self._schedule_breaks("sleep", self.sleep_calls)
             while isinstance(action, list) and action and action[0] == "fn":
                 label = str(action[1])
                 p = kwargs.get("patch")
@@ -111,11 +122,31 @@ class Sim07(scenario.Sim):
         if "/kopfexamples/" not in req["path"]:
             return
         self.own_writes += 1
+        self._schedule_breaks("write", self.own_writes)
         for r in self.reactive:
             if r.get("nth") == self.own_writes:
                 name = req["path"].rstrip("/").split("/kopfexamples/")[1].split("/")[0]
                 for off in r.get("offsets", []):
                     loop.call_later(int(off) * TICK, self._foreign_edit, name)
+
+    def _schedule_breaks(self, on: str, nth: int) -> None:
+        loop = asyncio.get_event_loop()
+        for b in self.breaks:
+            if b.get("on") == on and b.get("nth") == nth and not b.get("done"):
+                b["done"] = True
+                loop.call_later(int(b.get("offset", 0)) * TICK, self._break, str(b.get("how", "410")))
+
+    def _break(self, how: str) -> None:
+        cl = self.cluster
+        if how.startswith("410"):
+            cl.compact(self.kex)
+        if how.endswith("-now"):
+            for w in list(cl.watches):
+                if not w.closed and w.res.key == self.kex.key:
+                    w.close()
+        else:
+            cl.break_watches(self.kex, how)
+        self.mark("op", op=["break", how])
 
     def _foreign_edit(self, name: str) -> None:
         self.foreign_counter += 1
